@@ -125,7 +125,10 @@ class Registry:
             if n == profile and name in props:
                 d = props[name]
                 if callable(d):
-                    r = bool(d(value))
+                    try:
+                        r = bool(d(value))
+                    except Exception:
+                        r = False  # a validation function that raises does not accept (the error is the library's to report)
                 else:
                     r = _matches(expand(d, self.env, self.envkey), value)
                 break
